@@ -78,6 +78,34 @@ def closed_form(kind, family, x, y, ny, k):
     return dg * float(np.dot(d, ny)) / r            # d/dn_y g(|x - y|)
 
 
+BATCHES = (1, 2, 3, 4, 5)
+
+
+def batch_sweep(res, label, make_op, evaluate, points, reference=None, tol=1e-11):
+    """Evaluate one factory with the first n columns of `points` (3 x 5, not symmetric) for n = 1..5: the value at column j
+    must not depend on the batch it is evaluated in (reference = the single-column (3,1) call) and, if given, must equal
+    reference(j) computed independently."""
+    single = [np.asarray(evaluate(make_op(np.ascontiguousarray(points[:, [j]])))) for j in range(points.shape[1])]
+    scale = max(float(np.max(np.abs(v))) for v in single) + 1e-300
+    for j, v in enumerate(single):
+        if reference is not None:
+            r = reference(j)
+            check(res, float(np.max(np.abs(v[:, 0] - r))) <= tol * scale,
+                  "C08 %s: single evaluation point given as a (3,1) array gives a wrong value" % label,
+                  "value for one point / direction differs from the independent kernel sum",
+                  {"point": points[:, j].tolist(), "api": [[z.real, z.imag] for z in np.atleast_1d(v[:, 0]).astype(complex)],
+                   "reference": [[z.real, z.imag] for z in np.atleast_1d(r).astype(complex)]})
+    for nb_ in BATCHES:
+        vals = np.asarray(evaluate(make_op(np.ascontiguousarray(points[:, :nb_]))))
+        ok = vals.shape[1] == nb_ and all(
+            float(np.max(np.abs(vals[:, j] - single[j][:, 0]))) <= tol * scale for j in range(nb_))
+        worst = max([float(np.max(np.abs(vals[:, j] - single[j][:, 0]))) for j in range(min(nb_, vals.shape[1]))] + [0.0])
+        check(res, ok, "C08 %s: value depends on the number of evaluation points (batch of %d)" % (label, nb_),
+              "evaluating %d points / directions at once gives different values than evaluating them one by one" % nb_,
+              {"points": points[:, :nb_].tolist(), "batch_size": nb_, "max_abs_difference": worst, "scale": scale,
+               "batch_values": [[[z.real, z.imag] for z in row] for row in np.asarray(vals).astype(complex)][:3]})
+
+
 def job_scalar(pl, res, rng):
     import bempp_cl.api as api
     from bempp_cl.api.operators import potential, far_field
@@ -194,6 +222,34 @@ def job_scalar(pl, res, rng):
                         check(res, worst <= 1e-4, "C08 potential.%s.%s violates its PDE" % (family, kind),
                               "finite-difference residual of the PDE is too large away from the surface",
                               {"case": tag, "worst_relative_residual": worst})
+            # ---------------- batch-size sweep: every scalar potential and far-field factory ---------------------------
+            if sname == names[0]:
+                cf = api.GridFunction(sp, coefficients=rng.uniform(-1, 1, sp.global_dof_count) + 1j * rng.uniform(-1, 1, sp.global_dof_count))
+                dens_b = density_at(sp, cf.coefficients, ee, loc) * ww
+                bpts = centre[:, None] + np.array([[1.9, 0.3, -0.2], [-0.4, 2.2, 0.7], [0.5, -0.6, 2.4], [-1.7, -1.1, 0.9],
+                                                   [0.8, 1.3, -2.1]]).T * D
+                bdir = np.array([K.unit(np.array(v_)) for v_ in ([1.0, 0.2, -0.3], [-0.4, 1.0, 0.5], [0.3, -0.7, 1.0],
+                                                                 [-1.0, -0.6, 0.2], [0.1, 0.9, -1.0])]).T
+                kb = 1.4 / D + 0j
+                for family, karg in (("laplace", ()), ("modified_helmholtz", (1.1 / D,)), ("helmholtz", (kb,))):
+                    for kind in ("single_layer", "double_layer"):
+                        kc_ = complex(karg[0]) if karg else 0j
+                        batch_sweep(res, "potential.%s.%s" % (family, kind),
+                                    lambda P, fam=family, kd=kind, ka=karg: getattr(getattr(potential, fam), kd)(sp, P, *ka),
+                                    lambda op: op.evaluate(cf), bpts,
+                                    reference=lambda j, fam=family, kd=kind, kc2=kc_: np.array([sum(
+                                        closed_form(kd, fam, bpts[:, j], gp[:, q], nn[:, q], kc2) * dens_b[q]
+                                        for q in range(gp.shape[1]))]))
+                for kind in ("single_layer", "double_layer"):
+                    def ff_ref(j, kd=kind):
+                        tot = 0j
+                        for q in range(gp.shape[1]):
+                            e_ = cmath.exp(-1j * kb * float(np.dot(bdir[:, j], gp[:, q]))) / PI4
+                            tot += (e_ if kd == "single_layer" else -1j * kb * float(np.dot(bdir[:, j], nn[:, q])) * e_) * dens_b[q]
+                        return np.array([tot])
+                    batch_sweep(res, "far_field.helmholtz.%s" % kind,
+                                lambda P, kd=kind: getattr(far_field.helmholtz, kd)(sp, P, kb),
+                                lambda op: op.evaluate(cf), bdir, reference=ff_ref)
             # ---------------- far field -------------------------------------------------------------------------------
             xhat = np.array([K.unit(rng.normal(size=3)) for _ in range(5)]).T
             tvec = np.array([0.3, -0.2, 0.45]) * D
@@ -405,6 +461,20 @@ def job_maxwell(pl, res, rng):
                     check(res, r_ibp[order0][j] <= 0.2, "C08 potential.maxwell: %s up to quadrature error" % nm,
                           "the residual is far beyond the regular quadrature error",
                           {"space": sname, "k": str(k), "relative_residual": r_ibp[order0][j], "order": order0})
+            # batch-size sweep for the four Maxwell factories (first space, first k)
+            if sname == names[0] and k == 1.3 + 0j:
+                bpts = np.array([[1.9, 0.3, -0.2], [-0.4, 2.2, 0.7], [0.5, -0.6, 2.4], [-1.7, -1.1, 0.9], [0.8, 1.3, -2.1]]).T
+                bdir = np.array([K.unit(np.array(v_)) for v_ in ([1.0, 0.2, -0.3], [-0.4, 1.0, 0.5], [0.3, -0.7, 1.0],
+                                                                 [-1.0, -0.6, 0.2], [0.1, 0.9, -1.0])]).T
+                gpb, vvb, ssb = rwg_densities(grid, sp, coef, order0)
+                for pkg, mod_, P_, kern, asms in (("potential", potential.maxwell, bpts, "helmholtz_single_layer_regular",
+                                                   {"electric_field": "maxwell_efield_potential", "magnetic_field": "maxwell_mfield_potential"}),
+                                                  ("far_field", far_field.maxwell, bdir, "helmholtz_far_field_single_layer",
+                                                   {"electric_field": "maxwell_efield_far_field", "magnetic_field": "maxwell_mfield_far_field"})):
+                    for nm, asm in asms.items():
+                        ref = (lambda j, a_=asm, kn=kern, PP=P_: model_sum(a_, kn, PP[:, j], gpb, vvb, ssb, k)) if (nb and mx) else None
+                        batch_sweep(res, "%s.maxwell.%s" % (pkg, nm), lambda P, m_=mod_, n_=nm: getattr(m_, n_)(sp, P, k),
+                                    lambda op: op.evaluate(f), P_, reference=ref)
             # far fields: kernel-sum correspondence and translation law
             gp, vv, ss = rwg_densities(grid, sp, coef, order0)
             for nm, asm in (("electric_field", "maxwell_efield_far_field"), ("magnetic_field", "maxwell_mfield_far_field")):
